@@ -9,6 +9,7 @@ use std::io::{BufRead, Write};
 fn dispatch(case: &Value) -> Value {
     match case["op"].as_str().unwrap_or("") {
         "gate" => gates::run_gate(case),
+        "gate_sched" => gates::run_gate_sched(case),
         other => json!({"r": "harness_error", "e": format!("unknown op {}", other)}),
     }
 }
